@@ -57,7 +57,7 @@ def returns_rule(ctx, report):
                 v = strip(es.a[1]["0"])
                 if v.k == "call" and v.a[0].name == "insert" and "BTreeMap" in v.a[0].fn:
                     k = strip(v.a[1][1])
-                    kk = k.a[1][0] if (k.k == "call" and k.a[0].name in ("to_vec", "into", "to_owned", "clone") and k.a[1]) else k
+                    kk = k.a[1][0] if (k.k == "call" and k.a[0].name in ("to_vec", "into", "to_owned", "from", "clone") and k.a[1]) else k
                     kk = strip(kk)
                     val = strip(v.a[1][2])
                     if kk.k == "param" and kk.a[0] == 2 and val.k == "param" and val.a[0] == 3:
@@ -77,8 +77,15 @@ def returns_rule(ctx, report):
             if es.k == "agg" and es.a[0].endswith("Result::Ok"):
                 rv = node.rv
                 tl = trace_local(an, rv.ops[0])
-                # the tuple aggregate
+                # the tuple aggregate (possibly handed back through Ok(..)/`?` by a spliced-in helper or closure)
+                from rules.typestate import value_chain as _vc
+                ch = _vc(an, bb, idx, rv.ops[0])
+                if ch:
+                    tl = ch[0]
                 d = an.unique_def(tl) if tl is not None else None
+                if d is None and tl is not None:
+                    rds = an.reaching_defs(tl, bb, idx)
+                    d = rds[0] if len(rds) == 1 and rds[0] != "entry" else None
                 if d is None or getattr(d[2], "rv", None) is None or d[2].rv.kind != "aggregate":
                     why = "Ok payload is not a tuple built in place"
                     continue
@@ -356,6 +363,13 @@ def cause_ok(ctx, f, an, bb, idx, s, var):
                 return True, ""
         return False, "not tied to a checked_add overflow"
     if var == "UnsupportedIdentityScheme":
+        # eagerly built argument of `self.id().ok_or(E)`: the cause is the missing id
+        for b2, t in f.calls():
+            if t.callee and t.callee.name in ("ok_or", "ok_or_else") and len(t.args) == 2:
+                a0 = strip(an.operand_expr(t.args[0], b2.idx, len(b2.stmts)))
+                a1 = trace_local(an, t.args[1])
+                if a0.k == "call" and a0.a[0].target() == "Enr::<K>::id" and s.place.is_local() and a1 == s.place.local:
+                    return True, ""
         for d, cond, allowed, alll in cons:
             txt = repr(cond)
             if ("v4" in txt) or ("id" in txt and "::id(" in txt):
@@ -375,6 +389,9 @@ def cause_ok(ctx, f, an, bb, idx, s, var):
             return False, "closure is not the map_err of a sign_v4 result"
         for d, cond, allowed, alll in cons:
             if "v4" in repr(cond):
+                return True, ""
+            # a test on the identity scheme itself (a slice pattern compares length and bytes one by one)
+            if any(x.k == "field" and x.a[1] == "id" and strip(x.a[0]).k == "param" for x in cond.walk()) or any(x.k == "call" and x.a[0].target() == "Enr::<K>::id" for x in cond.walk()):
                 return True, ""
         return False, "not tied to a signing failure"
     if var == "InvalidRlpData":
